@@ -350,8 +350,12 @@ def parseOpts : Nat → List String → List (String × OptVal) → Option (List
   | _, _, _ => none
 
 open S3db.Schema in
-def schemaStep (args : List String) : String :=
+partial def schemaStep (args : List String) : String :=
   match args with
+  | "create-nostorage" :: rest =>
+    -- the storage cannot be opened: whatever the definition, the CREATE is refused
+    if schemaStep ("create" :: rest) == "bad-op" then "bad-op"
+    else if (S3db.Schema.createEff S3db.Gen.facts true false true).1 then "accept" else "reject"
   | "create" :: hasCols :: nitems :: rest =>
     match nitems.toNat? with
     | some ni =>
